@@ -1399,7 +1399,17 @@ class ForAll(BinaryOperator):
     @property
     @lru_cache(maxsize=None)
     def condition_unique_variable_ids(self) -> List[int]:
-        return [v.id_ for v in self.condition._unique_variables_.difference(self.left._unique_variables_)]
+        return [v.id_ for v in self.condition._unique_variables_.difference(self.left._unique_variables_)
+                if not isinstance(v.value, Literal)]
+
+    @lru_cache(maxsize=None)
+    def _required_variables_from_child_(self, child: Optional[SymbolicExpression] = None, when_true: bool = True):
+        required_vars = super()._required_variables_from_child_(child, when_true)
+        if child is self.condition:
+            # the condition is evaluated once per value of the universal variable, its outputs for different values
+            # are different outputs.
+            required_vars = required_vars.union(self.variable._unique_variables_)
+        return required_vars
 
     def _evaluate__(self, sources: Optional[Dict[int, HashedValue]] = None,
                     yield_when_false: bool = False) -> Iterable[Dict[int, HashedValue]]:
